@@ -1,2 +1,5 @@
 -- Root of the `Verif` library: models, lemmas and property theorems.
 import Verif.Model.Align
+import Verif.Model.SoundClass
+import Verif.Props.C01
+import Verif.Props.C02
